@@ -8,6 +8,8 @@ use crate::MS_PER_DAY;
 mod neri_schneider;
 
 pub(crate) use neri_schneider::epoch_days_from_gregorian_date;
+#[cfg(feature = "verif_hooks")]
+pub(crate) use neri_schneider::ymd_from_epoch_days as verif_ymd_from_epoch_days;
 
 // NOTE: Potentially add more of tests.
 
